@@ -451,6 +451,13 @@ def run(ck, facts, tier):
     nd, tb = list(ck.not_decided), list(ck.trusted)
     c10.run(ck, facts, tier, only={"R10.3", "R10.4", "R10.5", "R10.6"})
     ck.not_decided[:], ck.trusted[:] = nd, tb
+    # "every cross rate is available" for quotes that are themselves Dual / Dual2 with nested variable sets: a cross is a product / quotient of quotes, so the
+    # alignment discipline of the operators (C03 R03.1/R03.3/R03.5) is a necessary condition — a widened same-variables fast path aborts the fill-in at order two
+    from rules import c03
+    nd3, tb3 = list(ck.not_decided), list(ck.trusted)
+    with ck.restrict({"R03.1", "R03.3", "R03.5"}):
+        c03.run(ck, facts, tier)
+    ck.not_decided[:], ck.trusted[:] = nd3, tb3
     from rules import pywrap
     pywrap.run_fx_wrappers(ck, facts)          # what a Python user calls is the wrapper: it must hand its arguments to the core method unchanged
     ck.not_decided += ["that every valid tree of quotes is accepted (the node-selection heuristic with the visited set — liveness/termination of the recursive fill-in)",
